@@ -49,7 +49,8 @@ def load_variants():
                 except ValueError:
                     continue
                 if meta.get("valid"):
-                    out.append({"id": "twin-" + name, "props": twin_props(meta, pp), "patch": pp, "expect": "silent", "rule": None, "edits": []})
+                    out.append({"id": "twin-" + name, "props": twin_props(meta, pp), "patch": pp, "expect": "silent", "rule": None, "edits": [],
+                                "undecided": [pid for pid, c in meta.get("checks", {}).items() if c.get("exit") == 2]})
     return out
 
 
@@ -149,7 +150,13 @@ def main(pid, repo="/repo", run=None, verbose=True):
             tally["stale"] += 1
             verdict = "STALE (%s)" % r["detail"]
         elif r["code"] == 2:
-            if expect == "fire" and v.get("allow_error"):
+            if expect == "silent" and pid in v.get("undecided", ()):
+                # a refactoring the analysis is known not to follow: "cannot decide" is the recorded, accepted answer --
+                # what must never happen is a violation
+                tally["silent_ok"] += 1
+                tally["undecided"] = tally.get("undecided", 0) + 1
+                verdict = "ok (undecided: exit 2, as recorded)"
+            elif expect == "fire" and v.get("allow_error"):
                 tally["fire_ok"] += 1
                 verdict = "ok (analysis refuses: exit 2)"
             else:
